@@ -859,6 +859,29 @@ func (vc *VC) run(fr *frame, entry state) []retInfo {
 		if isLoop {
 			fr.loopExit[b] = st.heap.clone()
 			fr.loopOrds[b] = loopOrd[b]
+			// `exhaustive k`: loop k is left only through its header (the range is used up) or by a
+			// return; an edge from the body to code behind the loop (break, goto) is refused
+			if fr.depth == 0 && vc.contract != nil && vc.contract.Exhaustive[loopOrd[b]] {
+				body := loopBlocks(b)
+				for blk := range body {
+					if blk == b {
+						continue
+					}
+					for _, sc := range blk.Succs {
+						if !body[sc] {
+							if n := len(sc.Instrs); n > 0 {
+								if _, isRet := sc.Instrs[n-1].(*ssa.Return); isRet {
+									continue
+								}
+								if _, isPanic := sc.Instrs[n-1].(*ssa.Panic); isPanic {
+									continue
+								}
+							}
+							vc.oblige("exhaustive", fmt.Sprintf("loop %d is left only through its header or a return (edge from block %d to block %d leaves the body)", loopOrd[b], blk.Index, sc.Index), nil, vc.pos(fr, firstPos(sc)), "true", "false")
+						}
+					}
+				}
+			}
 		}
 
 		// back edges out of b: check loop invariants
